@@ -54,6 +54,12 @@ def gen_obj(rng):
     obj = {'kind': kind, 'formula': lang.to_jsonable(f), 'data': data, 'reps': rng.choice([1, 2, 2, 3])}
     if rng.random() < 0.3 and any(g[1] is not None for g in lang.walk(f)):
         obj['units'] = rng.choice(['s', 'ms', 'us'])
+    if kind.startswith('dt') and rng.random() < 0.15 and any(g[1] is not None for g in lang.walk(f)) and not heavy_formula(f):
+        # a sampling period that is not one default unit (bounds written in s, so they stay multiples of it): the
+        # same object evaluated / updated repeatedly must not drift
+        obj['units'] = 's'
+        obj['period'] = rng.choice([[500, 'ms'], [250, 'ms'], [100, 'ms']])
+        obj['reps'] = max(obj['reps'], 2)
     if kind == 'dt_off' and rng.random() < 0.25:
         obj['tuples'] = True
     if kind == 'ct_on' and rng.random() < 0.6:
@@ -64,6 +70,10 @@ def gen_obj(rng):
         obj['poison'] = rng.choice(names)
         obj['reps'] = max(obj['reps'], 2)
     return obj
+
+
+def heavy_formula(f):
+    return any(g[0] in ('since', 'until', 'unless') and g[1] is not None and g[1][1] > 0 for g in lang.walk(f))
 
 
 def obj_sd(obj):
